@@ -275,7 +275,7 @@ func (x *FnCtx) verifyBody() {
 	ctr := x.contract
 	a0 := tb.Var("A$0", IntSort)
 	st := &State{pc: tb.Le(tb.IntC(minEntryA), a0), cells: map[*ssa.Alloc]Value{}, heap: &Heap{m: map[string]*Term{}, A: a0}, ghost: map[string]*Term{}}
-	fr := &Frame{fn: fn, regs: map[ssa.Value]Value{}, ctr: ctr}
+	fr := &Frame{fn: fn, ctr: ctr}
 	// parameters
 	for i, p := range fn.Params {
 		v := x.paramValue(st, p, i == 0 && fn.Signature.Recv() != nil)
@@ -406,8 +406,9 @@ func (x *FnCtx) paramValue(st *State, p *ssa.Parameter, isRecv bool) Value {
 // ---------- discharge ----------
 
 type workItem struct {
-	ob     *Obligation
-	script string
+	ob      *Obligation
+	script  string
+	relaxed string // same query with universally quantified hypotheses dropped (sound weakening); tried first
 }
 
 func (e *Engine) Discharge(results []*FnResult, timeoutS int, workers int) {
@@ -427,7 +428,14 @@ func (e *Engine) Discharge(results []*FnResult, timeoutS int, workers int) {
 			}
 			asserts = r.tb.instantiate(asserts, 2)
 			asserts = append(r.ctx.relevantAxioms(asserts), asserts...)
-			items = append(items, workItem{ob, r.tb.Script(asserts, ob.Cover || true, "ALL")})
+			it := workItem{ob: ob, script: r.tb.Script(asserts, true, "ALL")}
+			if !ob.Cover && len(ob.Asserts) == 2 && hasQuant(ob.Asserts[0]) {
+				// hypotheses (path condition) without their quantified conjuncts; the negated goal is kept
+				rel := []*Term{r.tb.dropForalls(ob.Asserts[0], map[int]*Term{}), ob.Asserts[1]}
+				rel = append(r.ctx.relevantAxioms(rel), rel...)
+				it.relaxed = r.tb.Script(rel, false, "ALL")
+			}
+			items = append(items, it)
 		}
 	}
 	var wg sync.WaitGroup
@@ -437,7 +445,16 @@ func (e *Engine) Discharge(results []*FnResult, timeoutS int, workers int) {
 		go func() {
 			defer wg.Done()
 			for it := range ch {
-				sr := Solve(it.script, timeoutS, "z3-new")
+				var sr SolverResult
+				if it.relaxed != "" {
+					sr = Solve(it.relaxed, maxInt(2, timeoutS/3), "z3-new")
+					if sr.Status != "unsat" {
+						sr = SolverResult{Status: "unknown"}
+					}
+				}
+				if sr.Status != "unsat" {
+					sr = Solve(it.script, timeoutS, "z3-new")
+				}
 				if sr.Status == "unknown" {
 					sr2 := Solve(it.script, timeoutS*2, "")
 					sr2.Seconds += sr.Seconds
